@@ -140,10 +140,19 @@ def add_returns_harness(ctx):
             ir.cfg.discard(e)
     target = H["new"]
     func = [f for f in H["fl"] if H["entry"] in f.get_all_blocks()][0]
+    # the new edges go either straight into the IR's CFG or into a separate CFG under construction (the CFG of a patch, merged into
+    # the IR afterwards); one or two calls (return sites) are announced
+    separate = bool(ctx.choose(2, "edges-collected-in-a-separate-cfg"))
+    two = bool(ctx.choose(2, "two-calls"))
     with make_modify_cache(m, H["fl"]) as cache:
-        EG.add_return_edges_to_callee(cache, m, func.uuid, target, ir.cfg)
+        side = gtirb.CFG() if separate else ir.cfg          # inside the context ir.cfg is the return-edge cache
+        EG.add_return_edges_to_callee(cache, m, func.uuid, target, side)
+        if two:
+            EG.add_return_edges_to_callee(cache, m, func.uuid, H["site2"], side)
+        if separate:
+            ir.cfg.update(side)
     ctx.cover("enumerated")
-    want = [target] if had_proxy_returns else [H["old"], target]
+    want = ([] if had_proxy_returns else [H["old"]]) + [target] + ([H["site2"]] if two else [])
     bad = ret_invariant(H, want)
     ctx.prove("add_return_edges_to_callee/every-returning-block-also-returns-to-the-new-site-and-no-longer-to-a-proxy", z3.BoolVal(not bad), note="; ".join(bad[:2]))
 
